@@ -19,6 +19,7 @@ import (
 	corev1 "k8s.io/api/core/v1"
 	"k8s.io/apimachinery/pkg/api/resource"
 	metav1 "k8s.io/apimachinery/pkg/apis/meta/v1"
+	"k8s.io/apimachinery/pkg/types"
 	"k8s.io/klog/v2"
 	fakeclock "k8s.io/utils/clock/testing"
 
@@ -125,7 +126,8 @@ func c09Exec(in c09In) (out vu.Ev, failure string) {
 	}
 	if in.Anno.CPU > 0 || in.Anno.Mem > 0 {
 		node.Annotations[extension.AnnotationNodeReservation] =
-			fmt.Sprintf(`{"resources":{"cpu":"%dm","memory":"%d"}}`, in.Anno.CPU, in.Anno.Mem)
+			fmt.Sprintf(`{"resources":{"cpu":"%dm","memory":"%d"}%s}`, in.Anno.CPU, in.Anno.Mem,
+				[]string{"", `,"applyPolicy":"Default"`, `,"applyPolicy":"ReservedCPUsOnly"`}[(in.Anno.CPU+in.Anno.Mem)%3]) // how it applies to scheduling; reserved either way
 	}
 	enable := true
 	strategy := &configuration.ColocationStrategy{
@@ -162,7 +164,7 @@ func c09Exec(in c09In) (out vu.Ev, failure string) {
 	podList := &corev1.PodList{}
 	for k, p := range in.Pods {
 		pod := corev1.Pod{
-			ObjectMeta: metav1.ObjectMeta{Name: fmt.Sprintf("p%d", k), Namespace: "ns",
+			ObjectMeta: metav1.ObjectMeta{Name: fmt.Sprintf("p%d", k), Namespace: "ns", UID: types.UID(fmt.Sprintf("uid-p%d", k)),
 				Labels: map[string]string{extension.LabelPodQoS: p.Qos}},
 			Spec: corev1.PodSpec{
 				NodeName: nodeName,
